@@ -42,6 +42,7 @@ pub mod zvt_builder { pub use crate::*; }
 
 pub mod packets {
     use vstd::prelude::*;
+    use crate::n6::*;
     use crate::{encoding, length, zvt_builder};
     use crate::encoding::{NaiveDateTime, VTagSet, v_sorted_tags};
     use crate::vlemmas::lemma_slice_len_le_isize_max;
@@ -51,27 +52,63 @@ pub mod packets {
     use crate::ZvtSerializerImpl;
     broadcast use {crate::frame::lemma_tail_trans, crate::frame::lemma_tail_refl};
     //@ item src:zvt/src/packets.rs | struct PartialReversalReceiptNo
-    pub uninterp spec fn prr_enc(v: &usize) -> Seq<u8>;
-    pub uninterp spec fn prr_dec(b: Seq<u8>) -> Option<(usize, int)>;
-    /// receipt-number field of 06 23 / 06 1E: two BCD bytes, or FF FF for "none". Not verified yet (trusted shell).
+    /// receipt-number field of 06 23 / 06 1E: two BCD bytes, or FF FF for "none" (ZVT 2.10.1)
     impl encoding::Encoding<usize> for PartialReversalReceiptNo {
         open spec fn enc_ok(v: &usize) -> bool { true }
-        open spec fn canon(v: &usize) -> bool { false }
-        open spec fn spec_enc(v: &usize) -> Seq<u8> { prr_enc(v) }
-        open spec fn spec_dec(b: Seq<u8>) -> Option<(usize, int)> { prr_dec(b) }
-        open spec fn progresses() -> bool { false }
-        open spec fn self_delimiting() -> bool { false }
+        /// values whose own encoding is the two bytes of the field (four digits, or the marker 0xffff); shorter numbers
+        /// reach two bytes through the zero padding of `Fixed<2>`
+        open spec fn canon(v: &usize) -> bool { 1000 <= *v <= 9999 || *v == 0xffff }
+        open spec fn spec_enc(v: &usize) -> Seq<u8> {
+            if *v == 0xffff { le_seq2(0xffff) } else { <encoding::Bcd as encoding::Encoding<usize>>::spec_enc(v) }
+        }
+        open spec fn spec_dec(b: Seq<u8>) -> Option<(usize, int)> {
+            if b.len() < 2 { None }
+            else if b[0] == 0xff && b[1] == 0xff { Some((0xffffusize, 2int)) }
+            else { match <encoding::Bcd as encoding::Encoding<usize>>::spec_dec(b.subrange(0, 2)) { Some((v, _)) => Some((v, 2int)), None => None } }
+        }
+        open spec fn progresses() -> bool { true }
+        open spec fn self_delimiting() -> bool { true }
         open spec fn dec_rel(b: Seq<u8>, v: &usize, k: int) -> bool { true }
         open spec fn dec_total(b: Seq<u8>) -> bool { false }
         open spec fn dec_stop(rest: Seq<u8>) -> bool { true }
-        open spec fn functional() -> bool { false }
-        //@ fn src:zvt/src/packets.rs | impl encoding::Encoding<usize> for PartialReversalReceiptNo | decode | ext
+        open spec fn functional() -> bool { true }
+        //@ fn src:zvt/src/packets.rs | impl encoding::Encoding<usize> for PartialReversalReceiptNo | decode | also=C17,C01 props=C02,C17
+        //@ before ifbytes[0..2]==
+            proof {
+                // what is handed back is the input without its first two bytes
+                assert(bytes@.subrange(2, bytes@.len() as int) =~= bytes@.skip(2));
+                crate::frame::lemma_tail_intro(bytes@.skip(2), bytes@);
+            }
         //@ end
-        //@ fn src:zvt/src/packets.rs | impl encoding::Encoding<usize> for PartialReversalReceiptNo | encode | ext
+        //@ fn src:zvt/src/packets.rs | impl encoding::Encoding<usize> for PartialReversalReceiptNo | encode | also=C17,C01 props=C03,C17
         //@ end
         proof fn law_dec_bounds(b: Seq<u8>) {}
-        proof fn law_dec_frame(b: Seq<u8>, s: Seq<u8>) {}
-        proof fn law_inverse(v: &usize) {}
+        proof fn law_dec_frame(b: Seq<u8>, s: Seq<u8>) {
+            assert((b + s).subrange(0, 2) =~= b.subrange(0, 2));
+        }
+        //@ tag enc.law_inverse.receipt_no C17 C01
+        proof fn law_inverse(v: &usize) {
+            if *v == 0xffff {
+                assert(le_seq2(0xffff) =~= seq![0xffu8, 0xffu8]);
+            } else {
+                let k = *v as nat;
+                <encoding::Bcd as encoding::Encoding<usize>>::law_inverse(v);
+                crate::vlemmas::lemma_bcd_rev_msb(k);
+                crate::vlemmas::lemma_bcd_msb_val(k);
+                let e = crate::vlemmas::bcd_msb(k);
+                // four digits are two bytes
+                assert(crate::vlemmas::bcd_msb(k / 100 / 100) =~= Seq::<u8>::empty());
+                assert(crate::vlemmas::bcd_msb(k / 100) =~= Seq::<u8>::empty().push(crate::vlemmas::bcd_byte(k / 100)));
+                assert(e =~= crate::vlemmas::bcd_msb(k / 100).push(crate::vlemmas::bcd_byte(k)));
+                assert(e.len() == 2);
+                assert(<encoding::Bcd as encoding::Encoding<usize>>::spec_enc(v) =~= e);
+                assert(e.subrange(0, 2) =~= e);
+                // a BCD byte is never ff
+                assert((e[0] & 0xf) < 10);
+                assert(e[0] != 0xff) by { assert(forall|x: u8| (x & 0xf) < 10 ==> x != 0xff) by (bit_vector); }
+            }
+        }
+        //@ untag
     }
     //@ include u2_packets.tpl
     pub mod tlv {
